@@ -86,7 +86,7 @@ CLAIMED = {
 }
 
 NOT_APPLICABLE = {
-    "C13": "equality of parse sets across all fragmentations is arithmetic on runtime offsets of incomplete terminals; only constant-equality proxies would be checkable and those are brittle (DESIGN §5)",
+    "C13": "equality of parse sets across all fragmentations is arithmetic on runtime offsets of incomplete terminals; only constant-equality proxies would be checkable and those are brittle; a rule set about the state carried between fragments was built and rejected because 6 of its 7 breaking variants leave the parse sets of all fragmentations unchanged, i.e. the clauses are not necessary conditions (DESIGN §5, notes/rejected/)",
 }
 
 NOT_BUILT_YET = "rules designed in DESIGN.md §3 but the check is not built yet; not claimed until it exists and is silent on the repaired tree"
